@@ -232,9 +232,10 @@ class Engine:
         if c.raises:
             for exc, cond in c.raises(fr.entry_ctx):
                 self.oblige(fr, s, 'post', f'no-{exc}', Not(cond), lineno)
-        # canary: ensures False must be refutable on at least one path (vacuity guard)
-        if not getattr(fr, 'canary_done', False):
-            fr.canary_done = True
+        # canary: `ensures False` must be refutable on at least one return path (vacuity guard; some paths are
+        # legitimately infeasible under a configuration, so the guard is per function, not per path)
+        fr.n_canaries = getattr(fr, 'n_canaries', 0) + 1
+        if fr.n_canaries <= 6:
             self.oblige(fr, s, 'canary', 'false-is-refutable', SBool(False), lineno, expect='refutable')
         # frame: python lists passed in and not in `modifies` keep their items
         for name, v in fr.entry_vals.items():
@@ -303,6 +304,16 @@ class Engine:
         return r
 
     def stmt_Pass(self, node, s, fr):
+        return [('next', s, None)]
+
+    def stmt_ImportFrom(self, node, s, fr):
+        # `from . import Line, Polygon, ...` inside a method: the names denote repository classes
+        for al in node.names:
+            nm = al.asname or al.name
+            if al.name in extract.class_table():
+                s.env[nm] = bnp.ClassRef(al.name)
+            else:
+                raise Unsupported(f"import of {al.name}")
         return [('next', s, None)]
 
     def stmt_Expr(self, node, s, fr):
@@ -977,6 +988,8 @@ class Engine:
             return SFunc(node.id)
         if node.id in bnp.GLOBAL_NAMES:
             return bnp.GLOBAL_NAMES[node.id]
+        if node.id in extract.class_table():
+            return bnp.ClassRef(node.id)
         raise Unsupported(f"unknown name {node.id!r} at line {node.lineno}")
 
     def expr_Tuple(self, node, s, fr):
